@@ -291,6 +291,7 @@ Record sreq := mkReq {
   q_path : str;
   q_hdrs : hdict;
   q_msg : blob;
+  q_creds : creds;           (* options.username / options.password at the time of this send *)
   q_reuse : bool }.          (* the headers dict object is the one the previous send of this session used
                                 (same Request object sent again, or one dict shared by the Requests):
                                 q_hdrs is what the caller once put into it *)
@@ -327,8 +328,34 @@ Definition start_headers (P : params) (prev : hdict) (q : sreq) : hdict :=
 Definition headers_after (P : params) (k : tkind) (c : creds) (prev : hdict) (q : sreq) : hdict :=
   writeback (add_credentials P k c (start_headers P prev q)).
 
-Definition model_step (P : params) (k : tkind) (c : creds) (j : jar) (prev : hdict) (q : sreq) (p : sresp)
-  : pred * jar :=
+(* https.HttpAuthenticated keeps ONE urllib HTTPPasswordMgrWithDefaultRealm for its whole life:
+     addcredentials():  if None not in credentials: self.pm.add_password(None, request.url, u, p)
+   urllib: add_password stores under the reduced URI (here: the path; one host, no query) in a
+   dict - the same path is overwritten in place, a new one appended; find_user_password returns
+   the FIRST entry, in insertion order, that is the request path or a path prefix of it. *)
+Definition pmgr := list (str * (str * str)).
+Fixpoint pm_add (path u p : str) (pm : pmgr) : pmgr :=
+  match pm with
+  | [] => [(path, (u, p))]
+  | (path', up) :: r => if str_eqb path path' then (path', (u, p)) :: r else (path', up) :: pm_add path u p r
+  end.
+(* HTTPPasswordMgr.is_suburi *)
+Definition is_suburi (base test : str) : bool :=
+  str_eqb base test ||
+  is_prefix (if last base 0 =? ch_slash then base else base ++ [ch_slash]) test.
+Fixpoint pm_find (path : str) (pm : pmgr) : option (str * str) :=
+  match pm with
+  | [] => None
+  | (base, up) :: r => if is_suburi base path then Some up else pm_find path r
+  end.
+Definition pm_after (k : tkind) (c : creds) (pm : pmgr) (q : sreq) : pmgr :=
+  match k, c with
+  | TChallenge, (Some u, Some p) => pm_add (q_path q) u p pm
+  | _, _ => pm
+  end.
+
+Definition model_step (P : params) (k : tkind) (c : creds) (j : jar) (prev : hdict) (pm : pmgr)
+                      (q : sreq) (p : sresp) : pred * jar :=
   let h0 := start_headers P prev q in
   let h1 := add_credentials P k c h0 in
   let w := wire_body h1 (q_msg q) in
@@ -345,10 +372,11 @@ Definition model_step (P : params) (k : tkind) (c : creds) (j : jar) (prev : hdi
   | None => answered 1 u2
   | Some cb =>
       if has_key l_authorization u2 then answered 1 u2
-      else match k, c with
-           | TChallenge, (Some u, Some pw) =>
+      else match k, pm_find (q_path q) (pm_after k c pm q) with
+           | TChallenge, Some (u, pw) =>
                (* urllib.request.HTTPBasicAuthHandler repeats the request with
-                  "Basic " + b64encode("%s:%s" % (user, pw)) (standard alphabet) *)
+                  "Basic " + b64encode("%s:%s" % (user, pw)) (standard alphabet), user and pw
+                  being what the password manager FINDS for the URL *)
                answered 2 (dict_set l_authorization (authorization std_alphabet u pw) u2)
            | _, _ => (mkPred 1 u2 cks w (RTransportError 401 cb), j)
            end
@@ -399,17 +427,20 @@ Definition step_agrees (m : pred) (o : sobs) : bool :=
 
 Definition step := (sreq * sresp * sobs)%type.
 
-Fixpoint session_agrees (P : params) (k : tkind) (c : creds) (j : jar) (prev : hdict) (steps : list step) : bool :=
+Fixpoint session_agrees (P : params) (k : tkind) (j : jar) (prev : hdict) (pm : pmgr) (steps : list step) : bool :=
   match steps with
   | [] => true
   | (q, p, o) :: rest =>
-      let '(m, j') := model_step P k c j prev q p in
-      step_agrees m o && session_agrees P k c j' (headers_after P k c prev q) rest
+      let c := q_creds q in
+      let '(m, j') := model_step P k c j prev pm q p in
+      step_agrees m o && session_agrees P k j' (headers_after P k c prev q) (pm_after k c pm q) rest
   end.
 
-Definition xcase := (tkind * creds * list step)%type.
+(* a session: one transport object, then the sends in order (each with the credentials
+   configured at that time) *)
+Definition xcase := (tkind * list step)%type.
 Definition x_agrees (x : xcase) : bool :=
-  let '(k, c, steps) := x in session_agrees impl_params k c [] [] steps.
+  let '(k, steps) := x in session_agrees impl_params k [] [] [] steps.
 
 (* ------------------------------------------------------------------ *)
 (* specification, from the property text                               *)
@@ -559,15 +590,16 @@ Definition response_events (q : sreq) (p : sresp) (o : sobs) : list rev :=
   | _, _ => map (resolve (q_path q)) (p_cookies p)
   end.
 
-Fixpoint session_spec (k : tkind) (c : creds) (history : list rev) (steps : list step) : bool :=
+Fixpoint session_spec (k : tkind) (history : list rev) (steps : list step) : bool :=
   match steps with
   | [] => true
   | (q, p, o) :: rest =>
-      spec_step k c history q p o && session_spec k c (history ++ response_events q p o) rest
+      (* "when credentials are configured": those configured at the time of THIS request *)
+      spec_step k (q_creds q) history q p o && session_spec k (history ++ response_events q p o) rest
   end.
 
 Definition x_spec_ok (x : xcase) : bool :=
-  let '(k, c, steps) := x in session_spec k c [] steps.
+  let '(k, steps) := x in session_spec k [] steps.
 
 (* ------------------------------------------------------------------ *)
 (* small case families                                                 *)
@@ -654,14 +686,14 @@ Definition spec_part (n : N) (k : tkind) (c : creds) (history : list rev)
   | 3 => spec_credentials k c p o
   | _ => spec_result p o
   end.
-Fixpoint session_part (n : N) (k : tkind) (c : creds) (history : list rev) (steps : list step) : bool :=
+Fixpoint session_part (n : N) (k : tkind) (history : list rev) (steps : list step) : bool :=
   match steps with
   | [] => true
   | (q, p, o) :: rest =>
-      spec_part n k c history q p o && session_part n k c (history ++ response_events q p o) rest
+      spec_part n k (q_creds q) history q p o && session_part n k (history ++ response_events q p o) rest
   end.
 Definition x_part_ok (n : N) (x : xcase) : bool :=
-  let '(k, c, steps) := x in session_part n k c [] steps.
+  let '(k, steps) := x in session_part n k [] steps.
 
 (* the model of a whole call as far as I/O is concerned: the Request is constructed first
    (suds.transport.Request(location, ...) in _SoapClient.send, or by the caller of the transport);
